@@ -31,7 +31,8 @@ Init == BInit /\ hist = <<>>
 MCMerge == DoMerge /\ UNCHANGED hist
 MCAgain == DoAgain /\ UNCHANGED hist
 MCRead  == DoRead  /\ UNCHANGED hist
-NextMC  == MCMerge \/ MCAgain \/ MCRead
+MCReplay == DoReplay /\ UNCHANGED hist
+NextMC  == MCMerge \/ MCAgain \/ MCReplay \/ MCRead
 \* A query changes nothing but `out`, so the states it leads to are checked (TLC evaluates the
 \* invariants on them) but need not be expanded again: everything they can do, the state they
 \* were asked in can do.
@@ -44,6 +45,7 @@ MCRefines      == Quiet => Refines
 MCRefinesFirst == Quiet => RefinesFirst
 MCNoLeak       == Quiet => NoLeak
 MCLawsAgree    == Quiet => LawsAgree
+MCReplayKeeps  == Quiet => ReplayKeeps
 
 \* ---- generator --------------------------------------------------------------------------------
 \* every read time in every writing: T = the instant, <<w, z>> = what is handed to bi_read
@@ -57,7 +59,7 @@ Expected(p) == [k \in 1..(Len(TimeSeq) * Len(ZoneSeq)) |->
                    first  |-> SetToSeq({MapSeq(f) : f \in FirstReads(p, T)})]]
 \* an event of the history: s = the instant (for the reader), <<w, z>> = the written stamp handed to Bi
 Event(op, s, v) == [op |-> op, s |-> Instant(s), w |-> Wall(s), z |-> ZoneOf(s), v |-> MapSeq(v)]
-Agains == Cardinality({i \in DOMAIN hist : hist[i].op = "again"})
+Agains == Cardinality({i \in DOMAIN hist : hist[i].op \in {"again", "replay"}})
 
 GenMerge == /\ Len(pubs) < MaxMerges
             /\ \E s \in WStamps, v \in Versions :
@@ -65,9 +67,20 @@ GenMerge == /\ Len(pubs) < MaxMerges
 GenAgain == /\ Agains < MaxAgain
             /\ \E s \in WStamps, v \in Versions :
                   MergeAgain(s, v) /\ hist' = Append(hist, Event("again", s, v))
+\* replay of the store as it stood at t; the event carries the instant, the driver cuts the copy
+\* out of the REAL store (rows stamped <= t) and hands it to bi_merge
+GenReplay == /\ Agains < MaxAgain
+             /\ \E t \in Stamps :
+                  Replay(t) /\ hist' = Append(hist, [op |-> "replay", s |-> t, w |-> t, z |-> 0, v |-> <<>>])
 \* the print comes first, so it happens once per expanded state (not once per successor)
 NextGen == /\ PrintT(ToJson([hist |-> hist, reads |-> Expected(pubs), may_refuse |-> SetToSeq(RefusableT)]))
            /\ (GenMerge \/ GenAgain)
+\* the same with replays of earlier snapshots in the place of single re-merges
+NextGenR == /\ PrintT(ToJson([hist |-> hist, reads |-> Expected(pubs), may_refuse |-> SetToSeq(RefusableT)]))
+            /\ (GenMerge \/ GenReplay)
+\* ... and with both (simulated sessions)
+NextGenAll == /\ PrintT(ToJson([hist |-> hist, reads |-> Expected(pubs), may_refuse |-> SetToSeq(RefusableT)]))
+              /\ (GenMerge \/ GenAgain \/ GenReplay)
 
 \* the histories of the generator are histories of the specification
 GenIsSpec == [][BNext]_bvars
